@@ -17,6 +17,7 @@ import (
 	"fmt"
 	"os"
 	"path/filepath"
+	"sort"
 	"strings"
 
 	"github.com/google/pprof/internal/plugin"
@@ -37,6 +38,17 @@ type c08case struct {
 	web        string   // non-empty: web request instead of a command-line report
 	legacy     bool     // the source is a legacy text profile
 	badSources int      // further sources that are missing (even) or garbage (odd)
+	objMode    int      // 0: no binaries; 1: binaries open, disassembler fails; 2: binaries open and disassemble
+}
+
+func (c *c08case) objTool() plugin.ObjTool {
+	switch c.objMode {
+	case 1:
+		return scriptObj{disasmFails: true}
+	case 2:
+		return scriptObj{}
+	}
+	return nopObj{}
 }
 
 func (c *c08case) String() string {
@@ -121,10 +133,16 @@ func genC08Case(t *simrt.Tape) *c08case {
 		c.badSources = 1 + t.Choose(K, 3)
 	}
 	if t.Bool(K, 25) {
-		c.web = []string{"/top", "/peek?f=.", "/flamegraph", "/", "/?calltree=t", "/top?sort=cum", "/?g=lines", "/source?f=."}[t.Choose(K, 8)]
+		c.web = []string{"/top", "/peek?f=.", "/flamegraph", "/", "/?calltree=t", "/top?sort=cum", "/?g=lines", "/source?f=.", "/disasm?f=.", "/source?f=main"}[t.Choose(K, 10)]
+		if strings.HasPrefix(c.web, "/source") || strings.HasPrefix(c.web, "/disasm") {
+			c.objMode = t.Choose(K, 3)
+		}
 	} else {
-		cmd := []string{"-top", "-tree", "-peek=.", "-dot", "-callgrind", "-tags", "-traces", "-raw", "-proto", "-topproto", "-comments", "-text", "-list=.", "-svg"}[t.Choose(K, 14)]
+		cmd := []string{"-top", "-tree", "-peek=.", "-dot", "-callgrind", "-tags", "-traces", "-raw", "-proto", "-topproto", "-comments", "-text", "-list=.", "-svg", "-weblist=.", "-disasm=.", "-weblist=main|foo"}[t.Choose(K, 17)]
 		c.flags = append(c.flags, cmd)
+		if strings.Contains(cmd, "list") || strings.Contains(cmd, "disasm") {
+			c.objMode = t.Choose(K, 3)
+		}
 		if t.Bool(K, 30) {
 			c.flags = append(c.flags, "-call_tree")
 		}
@@ -210,7 +228,7 @@ func (c *c08case) run(x *xctx, cfg simrt.Config) c08out {
 		var perr error
 		opts := &plugin.Options{
 			Flagset: newFlags(append([]string{"-http=localhost:8080", "-no_browser"}, srcArgs...)),
-			UI:      ui, Writer: newWriter(), Sym: nopSym{}, Obj: nopObj{}, HTTPTransport: failTransport{},
+			UI:      ui, Writer: newWriter(), Sym: nopSym{}, Obj: c.objTool(), HTTPTransport: failTransport{},
 			HTTPServer: func(args *plugin.HTTPServerArgs) error {
 				s := &c19session{handlers: args.Handlers}
 				resp = s.do(c.web)
@@ -230,7 +248,7 @@ func (c *c08case) run(x *xctx, cfg simrt.Config) c08out {
 	ui := newTaskUI()
 	args := append(append([]string{}, c.flags...), "-output=out")
 	args = append(args, srcArgs...)
-	opts := &plugin.Options{Flagset: newFlags(args), UI: ui, Writer: w, Sym: nopSym{}, Obj: nopObj{}, HTTPTransport: failTransport{}}
+	opts := &plugin.Options{Flagset: newFlags(args), UI: ui, Writer: w, Sym: nopSym{}, Obj: c.objTool(), HTTPTransport: failTransport{}}
 	var perr error
 	o.res = simrt.Exec(cfg, func() { perr = PProf(opts) })
 	x.note(o.res)
@@ -239,9 +257,21 @@ func (c *c08case) run(x *xctx, cfg simrt.Config) c08out {
 	if perr != nil {
 		o.err = perr.Error()
 	}
-	for _, l := range ui.all() {
-		o.ui += l.Text + "\n"
+	// Messages per task, the tasks' blocks in sorted order: task numbers follow
+	// the schedule, the sequence of messages of one task does not.
+	var blocks []string
+	for _, ls := range ui.byTask {
+		if len(ls) == 0 {
+			continue
+		}
+		var sb strings.Builder
+		for _, l := range ls {
+			sb.WriteString(l.Text + "\n")
+		}
+		blocks = append(blocks, sb.String())
 	}
+	sort.Strings(blocks)
+	o.ui = strings.Join(blocks, "--\n")
 	return o
 }
 
